@@ -58,13 +58,16 @@ def noop_call(h, rng, x, cid):
 
 
 def gen_case_c02(rng, n_ops=6):
-    table = gen_table_c02(rng)
+    table = gen_table_c02(rng, mutable_override=0.5)
     _, heap0 = ic.resolve_table(table)
     nd = len(heap0)
     h = ig.Hist(rng, table, nd)
     h.prefer_nested = rng.random() < 0.5
-    cid = rng.choice([2, 2, 3])
-    x = h.construct(cid)
+    cid = rng.choice([2, 3, 3])
+    if rng.random() < 0.3:                      # receiver holding nothing but its defaults
+        x = h.add(("construct", cid, None, []), ("inst", cid))
+    else:
+        x = h.construct(cid)
     for _ in range(rng.choice([0, 1, 2])):      # reach richer receiver states in place
         (h.item_helper if rng.random() < 0.6 else h.scalar_helper)(x, cid, 0.0, 1.0)
     results = []
@@ -77,8 +80,14 @@ def gen_case_c02(rng, n_ops=6):
             y = h.item_helper(recv, cid, 0.05, 0.0)
         elif r < 0.7:
             y = h.top_helper(recv, cid, 0.05, 0.0)
-        elif r < 0.8:
+        elif r < 0.78:
             y = h.add(("deepcopy", recv), ("inst", cid))
+        elif r < 0.88:                          # reset_<attr>() / reset() on a copy
+            if rng.random() < 0.6:
+                a = rng.choice(h.attrs_of(cid))
+                y = h.add(("helper", recv, ("reset", a["aid"]), {}), ("inst", cid))
+            else:
+                y = h.add(("helper", recv, ("reset_top", None), {}), ("inst", cid))
         else:
             y = noop_call(h, rng, recv, cid)
         results.append(y)
